@@ -15,7 +15,7 @@ TRUSTED = [
 
 
 def run(rep):
-    st = verif.proof_stage(rep, "C14", needs_translators=["gentables", "readeruse"])
+    st = verif.proof_stage(rep, "C14", needs_translators=["gentables", "readeruse", "sharedgen"])
     broken = list(st["broken"])
     broken += verif.build_topic(go_pkgs=("readers", "bufioops"), drivers=(("bufio", "bufio_ex"),))
     found = False
